@@ -536,7 +536,7 @@ theorem resolvePath_eq (q : Str) (m : Bool) (h : absPath q = true) :
 theorem unquotePath_nil : unquotePath [] = [] := by decide
 
 theorem unquotePath_slash (r : Str) : unquotePath ('/' :: r) = '/' :: unquotePath r := by
-  have := safelyUnquote_append_sep Gen.Quote.unsafeForPath sep_slash (by decide) [] r
+  have := safelyUnquote_append_sep Gen.Quote.unsafeForPath sep_slash (by decide) (by decide) [] r
   have h0 : safelyUnquote Gen.Quote.unsafeForPath [] = [] := unquotePath_nil
   rw [h0] at this
   simpa [unquotePath] using this
@@ -650,12 +650,10 @@ theorem asciiSet_path : AsciiSet Gen.Quote.unsafeForPath := by unfold AsciiSet; 
 
 theorem unquotePath_idem (s : Str) : unquotePath (unquotePath s) = unquotePath s := by
   have hU : (0x25 : UInt8) ∈ Gen.Quote.unsafeForPath := by decide
-  have hout := outTok_unquoteToks Gen.Quote.unsafeForPath (tokens s) (wf_tokens s)
-  have h : tokens (safelyUnquote Gen.Quote.unsafeForPath s) =
-      unquoteToks Gen.Quote.unsafeForPath (tokens s) :=
-    tokens_render_of_canon _ (fun t ht => canon_of_outTok hU (wf_tokens s) (hout t ht))
-  unfold unquotePath safelyUnquote at h ⊢
-  rw [h, unquoteToks_idem _ hU asciiSet_path]
+  show render (unquoteToks Gen.Quote.unsafeForPath
+    (escapeRaw (tokens (safelyUnquote Gen.Quote.unsafeForPath s)))) = _
+  rw [tokens_safelyUnquote _ hU, escapeRaw_unquoteToks, unquoteToks_idem _ hU asciiSet_path]
+  rfl
 
 /-- an unescaped string: `safely_unquote_path` leaves it alone -/
 def Unq (s : Str) : Prop := unquotePath s = s
@@ -676,11 +674,11 @@ theorem unq_segments {s : Str} (h : Unq s) : ∀ x ∈ splitOn s '/', Unq x := b
 
 theorem unquotePath_join (parts : List Str) (hne : parts ≠ []) :
     unquotePath (join ['/'] parts) = join ['/'] (parts.map unquotePath) :=
-  safelyUnquote_join _ sep_slash (by decide) parts hne
+  safelyUnquote_join _ sep_slash (by decide) (by decide) parts hne
 
 theorem unquotePath_append_slash (a b : Str) :
     unquotePath (a ++ '/' :: b) = unquotePath a ++ '/' :: unquotePath b :=
-  safelyUnquote_append_sep _ sep_slash (by decide) a b
+  safelyUnquote_append_sep _ sep_slash (by decide) (by decide) a b
 
 /-- the canonical spelling of a view made of unescaped segments is unescaped -/
 theorem unq_render (v : List Str × Bool) (m : Bool) (h : ∀ x ∈ v.1, Unq x) :
@@ -898,6 +896,15 @@ theorem itemOf_dot {t : Tok} (h : pctTok t = [0x2E]) :
     simp only [h1, h2, if_true, if_false]
   | stray => simp [pctTok] at h
 
+theorem escTok_dot {t : Tok} (h : pctTok t = [0x2E]) : escTok t = [t] := by
+  cases t with
+  | raw c =>
+    simp only [pctTok] at h
+    rw [utf8_head_dot h]
+    decide
+  | esc h1 h2 => rfl
+  | stray => rfl
+
 theorem dotHonest_of_unq {s : Str} (hs : Unq s) : DotHonest s := by
   refine ⟨?_, ?_, ?_⟩
   · intro h
@@ -908,8 +915,9 @@ theorem dotHonest_of_unq {s : Str} (hs : Unq s) : DotHonest s := by
     have e' := pct_eq_nil hr
     subst e'
     rw [← hs]
-    simp only [unquotePath, safelyUnquote, unquoteToks, e, List.map_cons, List.map_nil,
-      itemOf_dot ht, assemble, flush_nil]
+    simp only [unquotePath, safelyUnquote, unquoteToks, e, escapeRaw, List.flatMap_cons,
+      List.flatMap_nil, escTok_dot ht, List.append_nil, List.singleton_append, List.map_cons,
+      List.map_nil, itemOf_dot ht, assemble, flush_nil]
     rfl
   · intro h
     obtain ⟨t, ts', e, ht, hr⟩ := pct_head_dot (ts := tokens s) h
@@ -918,8 +926,9 @@ theorem dotHonest_of_unq {s : Str} (hs : Unq s) : DotHonest s := by
     subst e'
     subst e2
     rw [← hs]
-    simp only [unquotePath, safelyUnquote, unquoteToks, e, List.map_cons, List.map_nil,
-      itemOf_dot ht, itemOf_dot ht2, assemble, flush_nil]
+    simp only [unquotePath, safelyUnquote, unquoteToks, e, escapeRaw, List.flatMap_cons,
+      List.flatMap_nil, escTok_dot ht, escTok_dot ht2, List.append_nil, List.singleton_append,
+      List.map_cons, List.map_nil, itemOf_dot ht, itemOf_dot ht2, assemble, flush_nil]
     rfl
 
 theorem dotHonest_segments {q : Str} (hq : Unq q) : ∀ s ∈ splitOn q '/', DotHonest s :=
@@ -948,13 +957,7 @@ theorem pathClean_cleanStr {p : Str} (h : pathClean p = true) :
     rw [Char.ofNat_toNat] at this
     exact this hc'
   · have h1 : ¬ c.toNat < 0x80 := hlt
-    simp only [Bool.and_eq_true, Bool.not_eq_true', isControlChar, Bool.or_eq_false_iff,
-      decide_eq_false_iff_not, Bool.and_eq_false_iff] at hc'
-    simp only [cleanRaw, h1, if_false, isC1, Bool.or_eq_true, Bool.not_eq_true',
-      Bool.and_eq_false_iff, decide_eq_false_iff_not]
-    right; right
-    have := hc'.2.2
-    omega
+    simp [cleanRaw, h1]
 
 theorem mem_of_mem_join {sep : Str} {parts : List Str} {x : Str} (hx : x ∈ parts) {c : Char}
     (hc : c ∈ x) : c ∈ join sep parts := by
